@@ -360,6 +360,9 @@ func relicAccepts(c sigCase, path string, content string) bool {
 		return false
 	}
 	tally("cases:"+c.Fmt, "relic-verified", 1)
+	if c.Key == "p256A" || c.TS || len(c.Flags) > 0 {
+		run.Sample(map[string]any{"case": c.String(), "signed_by": "relic standalone pipeline", "relic_verify": "accepted"})
+	}
 	return true
 }
 
